@@ -62,8 +62,8 @@ def runLayout (kv : List (String × String)) : String := Id.run do
           (List.range q).map fun y => a (((i * k + j) * l + x) * q + y)) 0).1
       | _ => []
     let mem := applyWrites ws zero
-    return s!"VAL={hex (digestMem n mem)} WSEQ={hex (hashNats 0 (ws.map (·.1)))} NW={ws.length}"
-  return s!"VAL={hex (digestMem n res)} RSEQ={hex (hashNats 0 rseq)} NR={rseq.length} WSEQ={hex (hashNats 0 wseq)} NW={wseq.length} R0SEQ={hex (hashNats 0 r0seq)} NR0={r0seq.length}"
+    return s!"VAL={hex (digestMem n mem)} WSEQ={hex (hashNats 0 (ws.map (·.1)))} NW={ws.length} route=ilist/rank{dims.length}"
+  return s!"VAL={hex (digestMem n res)} RSEQ={hex (hashNats 0 rseq)} NR={rseq.length} WSEQ={hex (hashNats 0 wseq)} NW={wseq.length} R0SEQ={hex (hashNats 0 r0seq)} NR0={r0seq.length} route={fn}/{if dims.length < 2 then "copy" else if dims.length == 2 then "loop2" else "odometer"}/src-{src}"
 
 /-- `<via>:<kind>:<arg>` -/
 def parseOp (tok : String) : Option (Via × Op) :=
@@ -146,6 +146,6 @@ def runMapops (kv : List (String × String)) : String := Id.run do
     | .read _ => chain := hstep chain (digestMem n (s.rd via))
     | _ => pure ()
     stepNo := stepNo + 1
-  return s!"V={V} VAL={hex chain} WSEQ={hex wseq} NW={nw} ALNM={alnm} ALNS={alns} SAME=1"
+  return s!"V={V} VAL={hex chain} WSEQ={hex wseq} NW={nw} ALNM={alnm} ALNS={alns} SAME=1 route=mapops/{kind}"
 
 end Fastor.Driver
